@@ -203,6 +203,9 @@ def labels_for(klass, tag, opname):
     return L
 
 
+KDIV_WIDTHS = (16, 32, 64)
+
+
 def sanitize(s):
     return re.sub(r"[^A-Za-z0-9_]", "_", s)
 
@@ -291,10 +294,6 @@ def generate(sc, tier, seed):
                 if cls["w"] not in (8, 64, max(ws)):
                     meta.setdefault("mem_widths_not_generated", []).append("%s:%s" % (form["code"], shape))
                     continue  # thorough memory shape: 8-bit, 64-bit and widest width of every pattern
-                if cls["op"] in ("Div", "Idiv") and cls["w"] >= 16:
-                    meta.setdefault("skipped_heavy", []).append("%s:%s value" % (form["code"], shape))
-                    if cls["w"] < 32:
-                        continue
             # one group per (mnemonic file, shape); multiplier/divider circuits one width per harness
             gpat = pattern if cls["op"] in ("Div", "Idiv", "Mul", "Imul1", "Imul2", "Imul3") else "all"
             gkey = (form["file"][:-3], gpat, shape, htier)
@@ -307,16 +306,22 @@ def generate(sc, tier, seed):
                     pass  # the fault-only harness below still runs for the memory shape
                 else:
                     continue
-            if cls["op"] in ("Div", "Idiv") and cls["w"] >= 32:
-                c2 = dict(cls)
-                c2["op"] = cls["op"] + "Fault"
-                blk = form_block(form, c2, enc, shape, d, suffix="_fault", only_props=("C06", "C09"))
-                groups.setdefault(gkey[:3] + (htier, "fault"), []).append((blk, "%s [%s] %s fault-only" % (form["syntax"], form["opcode"], shape)))
+            if cls["op"] in ("Div", "Idiv") and cls["w"] >= 16:
+                # Measured: only the 8-bit forms (16-bit divider circuit) are decided in full (1.5-5 min each).
+                # The 16/32/64-bit value harnesses and the 32-bit fault harness (the implementation itself divides
+                # at twice the operand width to test the quotient) ran into the 25 min cap in every run. The
+                # 64-bit forms test the quotient range without a divider (high half / sign tests), so their
+                # fault condition is decided on its own; everything else of these widths is outside the claim.
                 if cls["w"] == 64:
-                    # the value part of 64-bit DIV/IDIV (two 128-bit divider circuits) does not finish in 25 min even
-                    # with the shared primitive: outside the claim (stated in the evidence)
-                    meta.setdefault("skipped_heavy", []).append("%s:%s value" % (form["code"], shape))
-                    continue
+                    c2 = dict(cls)
+                    c2["op"] = cls["op"] + "Fault"
+                    blk = form_block(form, c2, enc, shape, d, suffix="_fault", only_props=("C06", "C09"))
+                    groups.setdefault(gkey[:3] + (htier, "fault"), []).append((blk, "%s [%s] %s fault-only" % (form["syntax"], form["opcode"], shape)))
+                meta.setdefault("skipped_heavy", []).append("%s:%s value%s" % (form["code"], shape, "" if cls["w"] == 64 else " and fault condition"))
+                if thorough and shape == "reg" and cls["w"] in KDIV_WIDTHS:
+                    blk = form_block(form, cls, enc, shape, d, suffix="_kdiv", kdiv=True)
+                    groups.setdefault(gkey[:3] + ("thorough", "kdiv"), []).append((blk, "%s [%s] %s divisor in 10 boundary constants" % (form["syntax"], form["opcode"], shape)))
+                continue
             blk = form_block(form, cls, enc, shape, d)
             groups.setdefault(gkey, []).append((blk, "%s [%s] %s" % (form["syntax"], form["opcode"], shape)))
     for gkey, lst in sorted(groups.items()):
@@ -328,6 +333,8 @@ def generate(sc, tier, seed):
             gmax = 1  # blocks with a memory operand: merged blocks exhaust 12 GB (and 15 of them the machine)
         if "_w64" in gkey[1] or gkey[0] in ("pop", "push", "call", "ret"):
             gmax = 1  # stack forms: two merged blocks exhaust 12 GB
+        if sum(1 for b, _d in lst if "C18" in b[1].split(",")) > 1:
+            gmax = 1  # more than one block with a symbolic trace / call-stack pre-state: 10 GB each, the machine runs out
         for i in range(0, len(lst), gmax):
             part = lst[i:i + gmax]
             h = hid if len(lst) <= gmax else "%s_%d" % (hid, i // gmax)
@@ -487,7 +494,7 @@ def program_harnesses(sc, inv, meta):
     return out
 
 
-def form_block(form, cls, enc, shape, d, suffix="", only_props=None):
+def form_block(form, cls, enc, shape, d, suffix="", only_props=None, kdiv=False):
     """Code of one form inside a (possibly grouped) harness: runs the handler on the shared
     symbolic machine and compares with the reference. Returns (lines, props, has_mem, nxmm)."""
     code = form["code"]
@@ -512,6 +519,17 @@ def form_block(form, cls, enc, shape, d, suffix="", only_props=None):
     lines.append("ax.state.registers.insert(crate::state::registers::SupportedRegister::RIP, next);")
     lines.append("let mut pre = pre0;")
     lines.append("pre.r[RIP_I] = next;")
+    if kdiv:
+        # Bounded variant for the wide dividers: the divisor register holds one of a few boundary constants
+        # (chosen by a symbolic selector), the dividend and everything else stays arbitrary.
+        w = cls["w"]
+        m = (1 << w) - 1
+        consts = [0, 1, 2, 3, 10, m, m - 1, 1 << (w - 1), (1 << (w - 1)) - 1, 0x10]
+        lines.append("let dsel: u8 = kani::any::<u8>();")
+        lines.append("let dconst: u64 = match dsel { %s };" % " ".join(
+            "%s => 0x%x," % (("_" if n == len(consts) - 1 else str(n)), c) for n, c in enumerate(consts)))
+        lines.append("let (gi, _gw, ghi) = gpr(f.r[0]).unwrap();")
+        lines.append("kani::assume(((pre.r[gi] >> (if ghi { 8 } else { 0 })) & 0x%x) == dconst);" % m)
     if cls["op"] == "Ret":
         lines.append("// the emulator's top-level-return rule (C11) is not under test here")
         lines.append("kani::assume(pre.r[RSP_I].wrapping_add(8) != ax.stack_top && pre.r[RSP_I] != ax.stack_top);")
